@@ -130,7 +130,7 @@ Lemma step_good : forall s o s' r,
   Inv s -> hazard s o = false -> step s o = (s', r) ->
   ((forall e, r <> Raise e) \/ is_call o = false -> Inv s') /\
   (is_call o = true ->
-     out_eqv r (fresh o) = true \/
+     ((exists d, r = Ret d) /\ out_eqv r (fresh o) = true) \/
      exists e di k pe, r = Raise e /\ In (di, k, FBad pe) (dk s)).
 Proof.
   intros s o s' r HI Hz Hs. pose proof HI as [HI0 Hh].
@@ -151,7 +151,7 @@ Proof.
       destruct (crop_eqv cols d meth (eq_sym Hm') Hj E1) as (C1 & C2 & C3 & C4).
       rewrite C2, Nat.ltb_irrefl in Hs. inversion Hs; subst. split.
       * intros _. unfold Inv, mk. cbn [D method dk]. rewrite C3, C4. auto.
-      * intros _. left. exact C1.
+      * intros _. left. split; [eexists; reflexivity|exact C1].
     + destruct (resolve (gdir s) bd) as [g dir] eqn:Er.
       unfold uses_bad_dir in Hz. rewrite Er in Hz. cbn [snd] in Hz.
       set (lf := match dir with
@@ -177,7 +177,7 @@ Proof.
            destruct (crop_eqv cols (ideal meth sz) meth eq_refl eq_refl Hsz) as (C1 & C2 & C3 & C4).
            rewrite C2, Nat.ltb_irrefl in Hs. inversion Hs; subst. split.
            ++ intros _. unfold Inv, mk. cbn [D method dk]. rewrite C3, C4. auto.
-           ++ intros _. left. exact C1.
+           ++ intros _. left. split; [eexists; reflexivity|exact C1].
         -- inversion Hs; subst. split.
            ++ intros [Hne|Hc2]; [exfalso; eapply Hne; reflexivity|discriminate].
            ++ intros _. right. exists (load_exc pe), di, (meth, sz), pe. auto.
@@ -190,10 +190,10 @@ Proof.
         -- apply negb_false_iff in Hz. rewrite Hz in Hs. cbn [d_size ideal] in Hs.
            rewrite Nat.ltb_irrefl in Hs. inversion Hs; subst. split.
            ++ intros _. apply Hgen. apply honest_put; auto.
-           ++ intros _. left. exact Heq.
+           ++ intros _. left. split; [eexists; reflexivity|exact Heq].
         -- cbn [d_size ideal] in Hs. rewrite Nat.ltb_irrefl in Hs. inversion Hs; subst. split.
            ++ intros _. apply Hgen; auto.
-           ++ intros _. left. exact Heq.
+           ++ intros _. left. split; [eexists; reflexivity|exact Heq].
   - inversion Hs; subst. split; [|discriminate]. intros _. unfold Inv, mk. cbn. auto.
   - cbn [step] in Hs. destruct (resolve (gdir s) bd) as [g dir].
     destruct dir as [di|]; inversion Hs; subst; (split; [|discriminate]); intros _;
@@ -256,9 +256,9 @@ Proof.
   destruct (step_good _ _ _ _ HI Hz1 Es) as [HI' Hr].
   pose proof (step_clean _ _ _ _ Hc Hd1 Hz1 Es) as Hc'.
   destruct (is_call o) eqn:Eo.
-  - destruct (Hr eq_refl) as [Hok|(e & di & k & pe & _ & Hin)].
+  - destruct (Hr eq_refl) as [[[d ->] Hok]|(e & di & k & pe & _ & Hin)].
     + rewrite Hok. cbn [andb]. apply IH; auto.
-      apply HI'. left. intros e ->. destruct (fresh o); discriminate.
+      apply HI'. left. discriminate.
     + destruct (Hc _ _ _ Hin) as [b Hb]. discriminate.
   - cbn [andb]. apply IH; auto. apply HI'. right. reflexivity.
 Qed.
@@ -282,7 +282,7 @@ Proof.
   destruct (step_good _ _ _ _ HI Hz1 Es) as [HI' Hr].
   destruct (is_call o) eqn:Eo.
   - destruct r as [d|e]; [|reflexivity].
-    destruct (Hr eq_refl) as [Hok|(e & di & k & pe & Hf & _)]; [|discriminate].
+    destruct (Hr eq_refl) as [[_ Hok]|(e & di & k & pe & Hf & _)]; [|discriminate].
     rewrite Hok. cbn [andb]. apply IH; auto. apply HI'. left. discriminate.
   - apply IH; auto. apply HI'. right. reflexivity.
 Qed.
